@@ -115,6 +115,11 @@ pub fn gen_game(s: &mut Stream, cfg: &GenCfg) -> Generated {
             tree: gen_no_decision(s, cfg),
             family: "no-decision",
         },
+        _ if cfg.dyadic => Generated {
+            // the uniform deal over 6 or 12 outcomes is not dyadic
+            tree: gen_matrix(s, cfg, false),
+            family: "matrix",
+        },
         _ => Generated {
             tree: gen_kuhn(s, cfg),
             family: "kuhn",
@@ -482,36 +487,43 @@ fn gen_shared_wide(s: &mut Stream, cfg: &GenCfg) -> T {
 }
 
 fn gen_rare_chance(s: &mut Stream, cfg: &GenCfg) -> T {
-    let mut sub_cfg = cfg.clone();
-    sub_cfg.max_nodes = (cfg.max_nodes / 2).max(4);
-    sub_cfg.families = false;
     let common = gen_matrix(s, cfg, false);
     // the rare branch has large stakes and its own decisions
-    let pay_scale = [1.0, 100.0, 1e4][s.below(3)];
+    let pay_scale = [1.0, 128.0, 8192.0][s.below(3)];
+    let mut stake = |s: &mut Stream| {
+        if cfg.dyadic {
+            pay_scale * (s.below(33) as f64 - 16.0) / 8.0
+        } else {
+            pay_scale * (s.unit_generic() - 0.5)
+        }
+    };
     let p = s.below(2);
     let rare = T::Player(
         p,
         "rare".into(),
         vec![
-            ("l".into(), T::Term(pay_scale * (s.unit_generic() - 0.5))),
+            ("l".into(), T::Term(stake(s))),
             (
                 "r".into(),
                 T::Player(
                     1 - p,
                     "rare".into(),
-                    vec![
-                        ("l".into(), T::Term(pay_scale * (s.unit_generic() - 0.5))),
-                        ("r".into(), T::Term(pay_scale * (s.unit_generic() - 0.5))),
-                    ],
+                    vec![("l".into(), T::Term(stake(s))), ("r".into(), T::Term(stake(s)))],
                 ),
             ),
         ],
     );
-    let w = [1e-6, 1e-4, 1e-2][s.below(3)];
-    if s.bool() {
-        T::Chance(None, vec![(1.0, common), (w, rare)])
+    let (w_common, w_rare) = if cfg.dyadic || cfg.rational_weights {
+        // exact, with a total of one
+        let r = [1.0 / 1048576.0, 1.0 / 8192.0, 1.0 / 128.0][s.below(3)];
+        (1.0 - r, r)
     } else {
-        T::Chance(None, vec![(w, rare), (1.0, common)])
+        (1.0, [1e-6, 1e-4, 1e-2][s.below(3)])
+    };
+    if s.bool() {
+        T::Chance(None, vec![(w_common, common), (w_rare, rare)])
+    } else {
+        T::Chance(None, vec![(w_rare, rare), (w_common, common)])
     }
 }
 
